@@ -1090,7 +1090,13 @@ func (vc *VC) ghostHeap(name string, pkg *types.Package) (hname, hsort string, t
 
 func (vc *VC) ghostLoad(st *State, name, ref string, pkg *types.Package) Term {
 	hn, hs, t, g := vc.ghostHeap(name, pkg)
-	h := vc.heapGet(st, hn, hs, nil)
+	var shapeT types.Type
+	if g == nil && t != nil {
+		if _, ok := under(t).(*types.Slice); ok {
+			shapeT = t // ghost sequences have the shape of a slice (length >= 0)
+		}
+	}
+	h := vc.heapGet(st, hn, hs, shapeT)
 	if g != nil {
 		return vc.ghostArrayTerm(sel(h.S, ref), g)
 	}
